@@ -28,6 +28,7 @@ import contextlib
 import hashlib
 import io
 import itertools
+import math
 import json
 import os
 import re
@@ -228,6 +229,12 @@ def _mkp(seq, salt=0):
     return _Perm(seq)
 
 
+def _nm(name):
+    """file / info names of the protocol: `~` stands for a blank (the line protocol is blank-separated); the model and
+    the oracle keep the escaped spelling - names are opaque keys there, and the escape is injective"""
+    return name.replace("~", " ")
+
+
 def _impl_bisc(init, ops):
     d = _workdir()
     shared = {}          # ONE dictionary object per line: every write passes it, refilled in place (argument aliasing)
@@ -236,12 +243,13 @@ def _impl_bisc(init, ops):
         if init != "-":
             for e in init.split("+"):
                 n, c = e.split("=")
-                with open(os.path.join(d, n + ".json"), "w", newline="") as f:
+                with open(os.path.join(d, _nm(n) + ".json"), "w", newline="") as f:
                     f.write(dec_raw(c))
         outs = []
         if ops != "-":
             for o in ops.split("+"):
                 t = o.split(":")
+                t[1] = _nm(t[1])
                 if t[0] == "w":
                     data = {k: [_mkp(s, k) for s in v] for k, v in pdataset(t[2])}
                     if alias:
@@ -553,6 +561,23 @@ def _impl_shipped(base, ks):
     return "|".join("%d:%s" % (k, digest(r[k]) if k in r else "ABSENT") for k in _krange(ks))
 
 
+def _impl_shippart(fam, top):
+    """the good and the bad file of one family, length by length: sizes, repeated entries, entries in both files,
+    entries that are not permutations of the length they are filed under (no predicate is evaluated: cheap at every
+    shipped length, 8 and 9 included)"""
+    (g, sg), (b, sb) = _shipped("%s_good_len%d" % (fam, top)), _shipped("%s_bad_len%d" % (fam, top))
+    if not sg.startswith("OK:") or not sb.startswith("OK:"):
+        return "good:%s,bad:%s" % (sg.rstrip(":"), sb.rstrip(":"))
+    outs = []
+    for k in range(top + 1):
+        gk, bk = [tuple(p) for p in g.get(k, [])], [tuple(p) for p in b.get(k, [])]
+        sgk, sbk = set(gk), set(bk)
+        ok = all(sorted(p) == list(range(k)) for p in sgk | sbk)
+        outs.append("%d:total=%d,repeated=%d,both=%d,perms=%s" % (
+            k, len(sgk | sbk), len(gk) - len(sgk) + len(bk) - len(sbk), len(sgk & sbk), "T" if ok else "F"))
+    return "|".join(outs)
+
+
 def impl(op, a):
     if op == "bisc":
         return _impl_bisc(a[0], a[1])
@@ -562,6 +587,8 @@ def impl(op, a):
         return _impl_db(a[0], a[1])
     if op in ("shipped", "shippedp"):
         return _impl_shipped(a[0], a[1])
+    if op == "shippart":
+        return _impl_shippart(a[0], int(a[1]))
     raise ValueError("unknown op " + op)
 
 
@@ -858,6 +885,9 @@ def oracle(op, a):
         return _oracle_db(a[0], a[1])
     if op in ("shipped", "shippedp"):
         return _oracle_shipped(op, a[0], a[1])
+    if op == "shippart":
+        # the two files partition S_k for every k up to the stated length
+        return "|".join("%d:total=%d,repeated=0,both=0,perms=T" % (k, math.factorial(k)) for k in range(int(a[1]) + 1))
     return None
 
 
@@ -1115,6 +1145,31 @@ def _run(ctx):
             ops.insert(rng.randrange(len(ops) + 1), "w:nodir/a:.")
         lines.append("bisc %s %s" % (init, "+".join(ops)))
     ctx.compare("bisc-random", lines)
+    # ------------------------------------------------------------------ names that look alike / names of shipped files
+    # (a) names differing only in blank vs underscore vs hyphen, doubled separators, leading/trailing separators, case:
+    #     each is a file of its own - what was written under one must not show (or vanish) under another;
+    # (b) a name that was never written in this directory is missing, also when the package ships a file of that name
+    conf = ["x~y", "x_y", "x-y", "x~~y", "x__y", "~x", "_x", "x~", "x_", "X_y", "xy"]
+    lines = []
+    for i, n1 in enumerate(conf):
+        for n2 in conf:
+            if n1 == n2:
+                continue
+            if not quick or (i + conf.index(n2)) % 3 == 0:
+                lines.append("bisc - w:%s:0=_&1=0+w:%s:2=0,1;1,0&3=-+r:%s+r:%s" % (n1, n2, n1, n2))
+            lines.append("bisc - w:%s:0=_&1=0+r:%s+r:%s" % (n1, n2, n1))
+            if (i + conf.index(n2)) % 4 == 0:
+                lines.append("bisc - W:%s:2:0,1+W:%s:2:1,0+r:%s_good_len2+r:%s_good_len2+r:%s_bad_len2+r:%s_bad_len2" % (
+                    n1, n2, n1, n2, n1, n2))
+                lines.append("bisc - W:%s:2:0,1+r:%s_good_len2+r:%s_bad_len2" % (n1, n2, n2))
+    ctx.compare("bisc-lookalike-names", lines)
+    shipped_bases = sorted(f[:-5] for f in os.listdir(RES) if f.endswith(".json"))
+    lines = []
+    for b in shipped_bases:
+        lines.append("bisc - r:%s" % b)
+        lines.append("bisc - r:data/%s+r:%s" % (b, b))
+        lines.append("bisc - w:a:0=_&1=0+r:%s+r:a" % b)
+    ctx.compare("bisc-names-of-shipped-files", lines)
     # ------------------------------------------------------------------ sizes the streams above never reach
     # data sets with LONG entries (lengths 9-12, 21-40, 64-70, ~200, ~401, ~1000; keys with several digits), a long data
     # set overwritten by a short one and the other way round under one name, files whose content is a long data set
@@ -1306,6 +1361,20 @@ def _run(ctx):
             lines.append("shipped %s %s" % (base, rg))
             lines.append("shippedp %s %s" % (base, rg))
     ctx.extra["shipped_files"] = len(files)
+    # every family at every shipped length (8 and 9 too, in both tiers): the two files partition S_k; and, in the quick
+    # tier too, length 8 against the library's own predicate
+    fams = {}
+    for base in files:
+        m = SHIP_RE.fullmatch(base)
+        if m and os.path.getsize(os.path.join(RES, base + ".json")) > 0:
+            fams.setdefault((m.group(1), int(m.group(3))), set()).add(m.group(2))
+    part = ["shippart %s %d" % (f, t) for (f, t), kinds in sorted(fams.items()) if kinds == {"good", "bad"}]
+    if quick:
+        for base in files:
+            m = SHIP_RE.fullmatch(base)
+            if m and m.group(1) in DEFS and int(m.group(3)) >= 8 and os.path.getsize(os.path.join(RES, base + ".json")) > 0:
+                lines.append("shippedp %s 8-8" % base)
     # longest enumerations first so that the pool is balanced
     lines.sort(key=lambda l: -int(l.split(" ")[2].split("-")[1]))
     ctx.compare("shipped", lines, use_model=False)
+    ctx.compare("shipped-partition", part, use_model=False)
